@@ -226,16 +226,14 @@ pub trait PathImpl: 'static {
 
 	#[inline]
 	fn normalized(&self) -> Self::Owned {
-		let mut result: Self::Owned = if self.is_absolute() {
-			Self::EMPTY_ABSOLUTE.to_path_buf()
-		} else {
-			Self::EMPTY.to_path_buf()
-		};
+		let mut result = self.to_path_buf();
+		result.as_path_mut().normalize();
 
-		let mut open = false;
-		for segment in self.segments() {
-			open = result.as_path_mut().symbolic_push(segment)
-		}
+		// A final dot segment leaves a trailing `/` (RFC 3986, section 5.2.4).
+		let open = matches!(
+			self.last().map(SegmentImpl::as_bytes),
+			Some(CURRENT_SEGMENT | PARENT_SEGMENT)
+		);
 
 		if open && !result.is_empty() {
 			result.as_path_mut().push(Self::Segment::EMPTY)
